@@ -67,7 +67,10 @@ def o141(ctx):
             ctx.finding(q, ev.node, "the map itself must be transformed", ev.node, m)
         out = ev.kwargs.get("output")
         ctx.count(1)
-        if out is None or to_term(out) != to_term(r.ret):
+        via_buffer = out is not None and to_term(out) == to_term(r.ret)
+        res_ = ev.extra.get("ret")
+        via_result = res_ is not None and to_term(res_) == to_term(r.ret) and (out is None or isinstance(out, Ref) or is_pyconst(out))
+        if not (via_buffer or via_result):
             ctx.finding(q, "returned array", "rotate must return the array affine_transform writes into (an np.empty buffer may only "
                         "be returned after it has been filled)", fn, m)
         order = ev.kwargs.get("order")
